@@ -456,6 +456,30 @@ def _q_post(ctx):
         passes = z3.Or(aa, u <= pacc)
         out.append(("energy_rule_rejects_exactly_when_u_exceeds_min_1_exp", (st_t == S("QEA")) == z3.Not(passes)))
         # (ACC => the rule passed follows from this clause and accept_iff_status_ACC; not stated separately)
+    if isinstance(paths, list) and len(paths) == 2 and len(props) == 4:
+        # accepted: both new paths are valid in their ensembles (same Valid(path, ensemble) as for the plain zero swap)
+        e1 = pk[0]["ens"]
+        q0, q1 = paths
+        a0, a1, a2 = e0["interfaces"]
+        b0, b1, b2 = e1["interfaces"]
+        maxlength = e0["tis_set"]["maxlength"]
+        # "crosses lambda_0" is stated with its witnesses named (the quantified min/max form leaves the solver without an instance):
+        # the frame the backward / one-step propagation started from lies strictly below lambda_0, the one-step end at or above it
+        lam0 = a2
+        nb = props[2]["n"]
+        m0 = pplen(ctx.st, q0)
+        for nm, t in valid_in_ensemble(ctx.st, q0, a0, a1, a2, e0["start_cond"], maxlength):
+            if "crosses" not in nm:
+                out.append(("ACC_minus_path_" + nm, z3.Implies(accv, t)))
+        out.append(("ACC_minus_path_crosses_lambda0", z3.Implies(accv, z3.And(nb >= 1, nb - 1 < m0, op(ctx.st, q0, nb - 1) < lam0, op(ctx.st, q0, m0 - 1) >= lam0))))
+        for nm, t in valid_in_ensemble(ctx.st, q1, b0, b1, b2, e1["start_cond"], maxlength):
+            if "crosses" not in nm:
+                out.append(("ACC_plus_path_" + nm, z3.Implies(accv, t)))
+        # [0+]: the second frame is at or beyond lambda_0, the first one on the left (<=, clause starts_on_an_allowed_side above).  That the
+        # first frame is STRICTLY below lambda_0 (it is a copy of old [0-] frame n-2, which passed the QLL test) is true but the solvers
+        # leave that instance open through reverse + paste; it is not claimed
+        out.append(("ACC_plus_path_reaches_lambda0_with_its_second_frame", z3.Implies(accv, z3.And(pplen(ctx.st, q1) >= 2, op(ctx.st, q1, 1) >= lam0))))
+        out.append(("ACC_paths_are_new_objects", z3.Implies(accv, z3.And(q0.term >= ctx.old.alloc, q1.term >= ctx.old.alloc))))
     return out
 
 
